@@ -2,7 +2,7 @@
    (proofs: Client/FieldsProofs.v; model: Client/Fields.v on top of Client/Store.v). *)
 From Coq Require Import List Bool NArith ZArith.
 Import ListNotations.
-From Setec Require Import Base.SMap Base.Bytes Client.Store Client.StoreInv Client.Fields Client.FieldsProofs.
+From Setec Require Import Base.SMap Base.Bytes Base.Path Base.PathProofs Client.Store Client.StoreInv Client.Fields Client.FieldsProofs.
 
 Section C20.
 Variables V D : Type.
